@@ -54,14 +54,13 @@ META = dict(
                 'fails it with exactly e. A history lemma over these contracts (unbounded loop, two tagged pushes, event counters, symbolic limit >= 1) proves: every pushed item is in exactly one place '
                 '(not pushed / item sequence / blocked / delivered / handed over / withdrawn), conservation pushes == handed + delivered + withdrawn + |Q| + |B|, delivery order == push order also across blocking, '
                 'blocked pushes complete in arrival order, one per pop, and a push future is pending exactly while its item is blocked. '
-                'ON THE UNCHANGED TREE limited_queue::push FAILS three postconditions (genuine defect, reproduced natively by replay/c10_dup.cpp; candidate repair specs/C10/fix_push.diff): the item is emplaced into the '
-                'item sequence AND stored in _blocked (delivered twice), and the push blocks one item too early. With the repair every obligation is discharged.'),
+                'The pinned tree failed three postconditions of limited_queue::push (item emplaced AND parked: delivered twice; blocked one item early) - repaired by /repo commit a2f611a, native replay replay/c10_dup.cpp. Bounded siblings (lq_*_bounded: limit <= 4, loops unwound) decide the same contracts when a member is rewritten with a new loop.'),
     level_note=('Same reduction as C09: sequential contracts per critical section + machine-checked lock discipline (containers only while the mutex is held, parked promises resolved / coroutines resumed after unlock, '
                 'one critical section per operation) stand for "every interleaving"; no real producer/consumer threads are run. Limits are symbolic (any value in the per-function contracts, >= 1 in the lemma), '
                 'not 1..4. promise/future are abstract (resolution log); the readiness of the future returned by push is a fact about the real future object built by the real translated constructors. '
                 'unblock_pop is not reachable through limited_queue (protected base, no using-declaration) and is therefore not part of the histories. Only T=int with the default policies is instantiated. '
                 'The conservation sum is derived from the lockstep counting invariant by an arithmetic lemma that needs an SMT back end (z3) - solver-specific. The history lemma is a statement about the contracts: '
-                'it holds for the repaired code, for the unchanged code the push contract itself is violated.'),
+                'it is meaningful because every member satisfies its contract (units lq_*).'),
     technique=('CBMC 6.11 code contracts enforced per function with goto-instrument --dfcc on the C translation (ir2c) of the clang IR of the real queue.h; std containers and promise operations as assumed-contract '
                'boundary models with a ghost-index element view; history lemma = loop contract over replaced contracts; z3 for pure linear arithmetic; native replay against the real headers'),
     trusted_base=['assumed contract: std::queue<int>, std::queue<promise<int>>, std::queue<pair<int,promise<void>>> are unbounded FIFOs with move-in / destroy-on-pop element semantics (lib/model_awq_containers.c)',
